@@ -1318,6 +1318,12 @@ class LogixDriver(CIPDriver):
                 bit = int(attrs.pop(-1))
                 tag = base if not len(attrs) else f"{base}.{'.'.join(attrs)}"
 
+            for _part in tag.split("[")[1:]:
+                for _idx in _part.split("]")[0].split(","):
+                    if _idx.strip().isdigit() and int(_idx) > 0xFFFF_FFFF:
+                        # can't be encoded in a request path, largest member segment is 32-bit
+                        raise RequestError(f"Array index {_idx.strip()} is out of range for tag {tag}")
+
             tag_info = self._get_tag_info(base, attrs)
 
             if bit is not None and tag_info["tag_type"] != "atomic":
